@@ -14,6 +14,7 @@ import (
 	corevm "github.com/ethereum/go-ethereum/core/vm"
 
 	evertypes "github.com/EscanBE/evermint/v12/types"
+	"github.com/EscanBE/evermint/v12/utils/verifhook"
 	evmtypes "github.com/EscanBE/evermint/v12/x/evm/types"
 	evmvm "github.com/EscanBE/evermint/v12/x/evm/vm"
 )
@@ -51,6 +52,7 @@ func (k *Keeper) NewEVM(
 	if tracer == nil {
 		tracer = evmtypes.NewTracer(k.tracer, msg, cfg.ChainConfig, ctx.BlockHeight())
 	}
+	tracer = verifhook.WrapTracer(ctx, tracer)
 
 	coreVmConfig := corevm.Config{
 		Debug: func() bool {
